@@ -79,6 +79,10 @@ class P:
             n = rnd.choice(un[:-2]).decode()
             k = rnd.random()
             inner = (lambda: aword(d - 1)) if d > 0 else (lambda: [X.L(rnd.choice(["v", "", "a b", "1"]))])
+            if k < 0.06:
+                # $* / $@ under a removal operator, quoted or not: the positional parameters themselves stay as they are
+                pe_ = X.P(rnd.choice("*@"), rnd.choice(["%", "%%", "#", "##"]), [X.L(rnd.choice(["*", "?", "a", ".c", "a*", "*c", "p"]))])
+                return [pe_] if rnd.random() < 0.6 else [X.Q('"', pe_)]
             if k < 0.22:
                 return [X.P(n, rnd.choice([":=", "="]), inner())]
             if k < 0.5:
@@ -141,7 +145,7 @@ class P:
                     ops.append(eop())
             ops += [opstr(o) for o in probe(un)]
             opts = NOGLOB | (NOUNSET if rnd.random() < 0.5 else 0) | (rnd.getrandbits(13) & ~(NOGLOB | NOUNSET) if rnd.random() < 0.3 else 0)
-            xcases.append("\t".join([",".join(hx(a) for a in rnd.choice(ARGS[:3])), str(opts), "4242", " ".join(ops)]))
+            xcases.append("\t".join([",".join(hx(a) for a in rnd.choice(ARGS[:3] + [[b"sh", b"foo.c", b"pa.c"], [b"sh", b"ab", b"a", b"pc"]])), str(opts), "4242", " ".join(ops)]))
         xpart = {"name": "histories-with-expand-and-eval", "harness": "c20x", "driver": "c20x", "cases": xcases,
                  "nontrivial": lambda c: "X:" in c or "E:" in c, "distribution": {"cases": nx}}
         return [xpart, {"name": "histories", "harness": "c20", "driver": "c20", "cases": cases,
